@@ -327,3 +327,13 @@ Proof.
       * reflexivity.
       * destruct (colon_first (c :: r)) eqn:Ecf; [reflexivity|]. rewrite nocolon_is_not_colon, Ecf. reflexivity.
 Qed.
+
+Theorem rds_impl_wf hs ha v : wf_path_in hs ha v -> wf_path_in hs ha (rds_impl (negb hs && negb ha) ha v).
+Proof.
+  intros W. unfold rds_impl. pose proof (normalize1_wf hs ha v W) as Wn.
+  destruct (last_is_dot (segs v) && negb (path_is_empty (normalize1 (negb hs && negb ha) ha v))); [|exact Wn].
+  apply push_wf; [exact Wn | constructor | constructor].
+Qed.
+Theorem remove_dot_segments_wf p : wf_parts p ->
+  wf_parts (with_path p (rds_impl (negb (has (p_scheme p)) && negb (has (p_authority p))) (has (p_authority p)) (p_path p))).
+Proof. intros W. apply with_path_wf; [exact W|]. apply rds_impl_wf. now apply wf_parts_path. Qed.
